@@ -16,6 +16,16 @@ and recording operands for the overridden original instruction); the Lean stack 
 the final stack, the callback events with their arguments, the operands the original instruction
 saw, and the exception.
 
+Tie 2b (correspondence, kinds "pred" and "prov"): the Python side of the instrumentation, modelled in
+`Model/Callbacks.lean`.  "pred": the real `ExecutionTracer.executed_compare_predicate` /
+`executed_bool_predicate` on fresh operands with programmable (partial, raising) comparison / truth /
+membership protocols; the outcomes of the comparison and of the distance estimate are measured with
+pynguin's own `_COMPARISONS` entries on a second set of operands, the model predicts what the callback
+records or raises; oracle: the callback raises only what the module's own operation raises.  "prov": the
+real `DynamicConstantProvider.add_value*` entry points on operands of plain / subclass / enum / unrelated
+classes whose dunders and str methods log or raise; the model predicts the user calls (none) and the pool
+additions; oracle: no operator of an operand's class runs, nothing is raised.
+
 Tie 3 / oracle (kind "prog"): the property itself.  Modules (adversarial templates, random programs
 of harness/progen.py, sources of pure-Python stdlib modules) are imported plain and through
 pynguin's real import hook under all 2^3 metric subsets with a DynamicConstantProvider (as
@@ -641,6 +651,220 @@ class S2(str):
     pass
 
 
+class Abort(BaseException):
+    """derives from BaseException only (like KeyboardInterrupt / SystemExit)"""
+
+
+def _exc(name):
+    import builtins
+    return globals().get(name) or getattr(builtins, name)
+
+
+class _P:
+    """Partial comparison protocols: the operators the templates use work, the converse / reflected
+    operator (which only a distance heuristic would evaluate) raises `exc`.  Stateless, no log."""
+    def __init__(self, v, exc="NotImplementedError"):
+        self.v = v
+        self.exc = exc
+    def _o(self, o):
+        return o.v if isinstance(o, _P) else o
+    def _r(self, *a):
+        raise _exc(self.exc)("unsupported by " + type(self).__name__)
+
+
+class PC(_P):
+    """strict order only: < and > work, <= and >= raise"""
+    def __lt__(self, o):
+        return self.v < self._o(o)
+    def __gt__(self, o):
+        return self.v > self._o(o)
+    __le__ = __ge__ = _P._r
+
+
+class PW(_P):
+    """weak order only: <= and >= work, < and > raise"""
+    def __le__(self, o):
+        return self.v <= self._o(o)
+    def __ge__(self, o):
+        return self.v >= self._o(o)
+    __lt__ = __gt__ = _P._r
+
+
+class PE(_P):
+    """== works, != raises"""
+    def __eq__(self, o):
+        return self.v == self._o(o)
+    __ne__ = _P._r
+    def __hash__(self):
+        return 11
+
+
+class PN(_P):
+    """!= works, == raises"""
+    def __ne__(self, o):
+        return self.v != self._o(o)
+    __eq__ = _P._r
+    def __hash__(self):
+        return 12
+
+
+class _NoBoolX:
+    def __init__(self, exc):
+        self.exc = exc
+    def __bool__(self):
+        raise _exc(self.exc)("ambiguous truth value")
+
+
+class PB(_P):
+    """< and > work; <= and >= return an object whose truth value raises (array-like)"""
+    def __lt__(self, o):
+        return self.v < self._o(o)
+    def __gt__(self, o):
+        return self.v > self._o(o)
+    def __le__(self, o):
+        return _NoBoolX(self.exc)
+    __ge__ = __le__
+
+
+class TB(_P):
+    """truth value works, len() raises"""
+    def __bool__(self):
+        return bool(self.v)
+    __len__ = _P._r
+
+
+class CI(_P):
+    """membership works, iteration raises"""
+    def __contains__(self, x):
+        return x == self.v
+    __iter__ = _P._r
+
+
+class SL(str):
+    """str subclass: every overridden operator / method leaves a trace in `log`"""
+    def __new__(cls, s=""):
+        o = super().__new__(cls, s)
+        o.log = []
+        return o
+    def __add__(self, o):
+        self.log.append("add"); return str.__add__(self, o)
+    def __radd__(self, o):
+        self.log.append("radd"); return str.__add__(o, self) if isinstance(o, str) else NotImplemented
+    def __len__(self):
+        self.log.append("len"); return str.__len__(self)
+    def __format__(self, spec):
+        self.log.append("format"); return str.__format__(self, spec)
+    def __str__(self):
+        self.log.append("str"); return str.__str__(self)
+    def __mod__(self, o):
+        self.log.append("mod"); return str.__mod__(self, o)
+    def __contains__(self, o):
+        self.log.append("contains"); return str.__contains__(self, o)
+    def __iter__(self):
+        self.log.append("iter"); return str.__iter__(self)
+    def __getitem__(self, k):
+        self.log.append("getitem"); return str.__getitem__(self, k)
+    def upper(self):
+        self.log.append("upper"); return str.upper(self)
+    def lower(self):
+        self.log.append("lower"); return str.lower(self)
+    def startswith(self, *a):
+        self.log.append("startswith"); return str.startswith(self, *a)
+    def endswith(self, *a):
+        self.log.append("endswith"); return str.endswith(self, *a)
+    def isalnum(self):
+        self.log.append("isalnum"); return str.isalnum(self)
+    def isdigit(self):
+        self.log.append("isdigit"); return str.isdigit(self)
+    def islower(self):
+        self.log.append("islower"); return str.islower(self)
+    def isupper(self):
+        self.log.append("isupper"); return str.isupper(self)
+    def isspace(self):
+        self.log.append("isspace"); return str.isspace(self)
+    def istitle(self):
+        self.log.append("istitle"); return str.istitle(self)
+
+
+class SR(str):
+    """str subclass that cannot be concatenated, formatted or case-converted"""
+    def _r(self, *a):
+        raise ArithmeticError("not supported by SR")
+    __add__ = __radd__ = __format__ = __mod__ = upper = lower = _r
+
+
+class BL(bytes):
+    """bytes subclass with logging operators"""
+    def __new__(cls, s=b""):
+        o = super().__new__(cls, s)
+        o.log = []
+        return o
+    def __add__(self, o):
+        self.log.append("add"); return bytes.__add__(self, o)
+    def __radd__(self, o):
+        self.log.append("radd"); return bytes.__add__(o, self) if isinstance(o, bytes) else NotImplemented
+    def __len__(self):
+        self.log.append("len"); return bytes.__len__(self)
+    def startswith(self, *a):
+        self.log.append("startswith"); return bytes.startswith(self, *a)
+    def endswith(self, *a):
+        self.log.append("endswith"); return bytes.endswith(self, *a)
+    def decode(self, *a):
+        self.log.append("decode"); return bytes.decode(self, *a)
+
+
+class BR(bytes):
+    """bytes subclass that cannot be concatenated"""
+    def _r(self, *a):
+        raise ArithmeticError("not supported by BR")
+    __add__ = __radd__ = _r
+
+
+class IL(int):
+    """int subclass with logging operators"""
+    def __new__(cls, v=0):
+        o = super().__new__(cls, v)
+        o.log = []
+        return o
+    def __eq__(self, o):
+        self.log.append("eq"); return int.__eq__(self, o)
+    def __ne__(self, o):
+        self.log.append("ne"); return int.__ne__(self, o)
+    def __lt__(self, o):
+        self.log.append("lt"); return int.__lt__(self, o)
+    def __le__(self, o):
+        self.log.append("le"); return int.__le__(self, o)
+    def __gt__(self, o):
+        self.log.append("gt"); return int.__gt__(self, o)
+    def __ge__(self, o):
+        self.log.append("ge"); return int.__ge__(self, o)
+    def __hash__(self):
+        return int.__hash__(self)
+    def __sub__(self, o):
+        self.log.append("sub"); return int.__sub__(self, o)
+    def __rsub__(self, o):
+        self.log.append("rsub"); return int.__rsub__(self, o)
+    def __abs__(self):
+        self.log.append("abs"); return int.__abs__(self)
+    def __float__(self):
+        self.log.append("float"); return int.__float__(self)
+    def __bool__(self):
+        self.log.append("bool"); return int.__bool__(self)
+
+
+import enum as _enum
+
+
+class Col(_enum.StrEnum):
+    RED = "abc"
+    A = "a"
+
+
+class Num(_enum.IntEnum):
+    ONE = 1
+    TWO = 2
+
+
 class Box:
     def __init__(self, v):
         self.v = v
@@ -753,6 +977,15 @@ def ew(s, t):
     if s.endswith(t):
         return 1
     return 0
+
+def sw_tern(s, t):
+    return "y" if s.startswith(t) else "n"
+
+def ew_while(s, t):
+    n = 0
+    while s.endswith(t) and n < 2:
+        n += 1
+    return n
 
 def strfn(s):
     r = 0
@@ -971,14 +1204,41 @@ NUMS = ["0", "1", "-1", "2", "2**53", "2**53+1", "10**400", "-10**400", "1.0", "
         "float('nan')", "float('inf')", "-float('inf')", "2.0**53", "1e308", "decimal.Decimal('1.5')",
         "decimal.Decimal('NaN')", "fractions.Fraction(1,3)", "True", "False", "1+2j", "None", "'a'", "'b'",
         "b'a'", "[1]", "(1,2)", "{1}", "''"]
+#: "@PARTIAL" expands (per draw) to an operand with a partial comparison protocol whose converse operator raises
 CMPOBJ = ["Lg(1)", "Lg(2)", "Lg(0)", "OnlyLt(1)", "OnlyLt(2)", "OnlyEq(1)", "OnlyEq(2)", "BoolRaises(1)",
-          "EqRaises()"]
+          "EqRaises()", "IL(1)", "IL(2)", "Num.ONE", "Num.TWO"] + ["@PARTIAL"] * 12
+#: exception types a converse / reflected operator may raise (all are `Exception`s, so the original comparison
+#: still succeeds and the instrumented one has to as well); `Abort` derives from BaseException only (known finding)
+EXCS = ["NotImplementedError", "AttributeError", "KeyError", "ZeroDivisionError", "RuntimeError", "AssertionError",
+        "StopIteration", "OSError", "MyErr", "SubErr", "LookupError", "ArithmeticError", "EOFError", "BufferError",
+        "UnicodeError", "TypeError", "ValueError", "OverflowError", "IndexError", "NameError"]
+BASE_ONLY_EXCS = ["Abort"]
+PARTIAL_CLASSES = ["PC", "PW", "PE", "PN", "PB"]
+
+
+def expand_pool_entry(rng, entry: str) -> str:
+    """Pool entries starting with "@" are families of expressions: draw one member."""
+    if entry == "@PARTIAL":
+        exc = rng.choice(BASE_ONLY_EXCS) if rng.random() < 0.04 else rng.choice(EXCS)
+        return f"{rng.choice(PARTIAL_CLASSES)}({rng.choice([0, 1, 1, 2])},{exc!r})"
+    if entry == "@TRUTH":
+        exc = rng.choice(BASE_ONLY_EXCS) if rng.random() < 0.04 else rng.choice(EXCS)
+        return f"TB({rng.choice([0, 1, 2])},{exc!r})"
+    if entry == "@CONT":
+        exc = rng.choice(BASE_ONLY_EXCS) if rng.random() < 0.04 else rng.choice(EXCS)
+        return f"CI({rng.choice([1, 2])},{exc!r})"
+    return entry
 CONTAINERS = ["[1,2,3]", "(1,2)", "{1,2}", "{1:2}", "'abc'", "b'abc'", "range(3)", "iter([1,2,3,2])", "iter([2,2,2,5])",
               "(x for x in [1,2,3])", "Lg(1)", "[float('nan')]", "[Lg(1),Lg(2)]", "None", "5", "{}", "[]",
-              "EqRaises()", "[[1],[2]]", "{'a':1}"]
-STRS = ["'abc'", "''", "'ABC'", "'123'", "' '", "'Abc Def'", "b'abc'", "S2('abc')", "Lg('abc')", "None", "'a1'"]
+              "EqRaises()", "[[1],[2]]", "{'a':1}", "SL('abc')"] + ["@CONT"] * 4
+#: str / bytes subclasses with logging (SL, BL) or raising (SR, BR) operators, enum members
+STRS = ["'abc'", "''", "'ABC'", "'123'", "' '", "'Abc Def'", "b'abc'", "S2('abc')", "Lg('abc')", "None", "'a1'",
+        "SL('abc')", "SL('abc')", "SL('ABC')", "SL('12')", "SL('')", "SR('abc')", "SR('abc')", "BL(b'abc')",
+        "BL(b'abc')", "BR(b'abc')", "Col.RED"]
 STRARGS = ["'a'", "'c'", "('a','b')", "('c',)", "()", "b'a'", "None", "1", "''", "S2('a')", "['a']",
-           "Lg('a')"]
+           "Lg('a')", "SL('a')", "SL('a')", "SL('c')", "SR('a')", "SR('c')", "BL(b'a')", "BL(b'c')", "BR(b'a')",
+           "Col.A", "(SL('a'),)"]
+TRUTHOBJ = ["@TRUTH"] * 6 + ["SL('abc')", "SL('')", "BL(b'')", "IL(0)", "IL(3)", "Col.RED", "Num.ONE"]
 KEYS = ["0", "1", "-1", "5", "'a'", "'k'", "[1]", "None", "Lg(1)", "1.0", "float('nan')", "slice(0,1)", "True"]
 SUBCONT = ["[1,2,3]", "(1,2)", "{1:2}", "{'a':1}", "'abc'", "Lg(1)", "iter([1,2])", "None", "{}", "[]",
            "{1.0: 'x'}", "range(3)"]
@@ -999,12 +1259,14 @@ ADV_FUNCS = {
     "cmp_while": ("compare", [NUMS + CMPOBJ, NUMS]),
     "in_": ("contains", [NUMS + CMPOBJ, CONTAINERS]),
     "notin": ("contains", [NUMS + CMPOBJ, CONTAINERS]),
-    "truth": ("truth", [NUMS + CMPOBJ + CONTAINERS]),
-    "nottruth": ("truth", [NUMS + CMPOBJ + CONTAINERS]),
+    "truth": ("truth", [NUMS + CMPOBJ + CONTAINERS + TRUTHOBJ]),
+    "nottruth": ("truth", [NUMS + CMPOBJ + CONTAINERS + TRUTHOBJ]),
     "boolops": ("truth", [NUMS + CMPOBJ, NUMS + CMPOBJ, NUMS]),
-    "ternary": ("truth", [NUMS + CMPOBJ + CONTAINERS, NUMS]),
+    "ternary": ("truth", [NUMS + CMPOBJ + CONTAINERS + TRUTHOBJ, NUMS]),
     "sw": ("strfunc", [STRS, STRARGS]),
     "ew": ("strfunc", [STRS, STRARGS]),
+    "sw_tern": ("strfunc", [STRS, STRARGS]),
+    "ew_while": ("strfunc", [STRS, STRARGS]),
     "strfn": ("strfunc", [STRS]),
     "subscr": ("subscript", [SUBCONT, KEYS]),
     "subscr_try": ("subscript", [SUBCONT, KEYS]),
@@ -1154,6 +1416,10 @@ def run_call(mod, tracer_cm, fname, argexprs):
                 rec["out"] = ["err", "RecursionError"]
             except Exception as e:  # noqa: BLE001 - the exception type is the observation
                 rec["out"] = ["err", type(e).__name__]
+            except BaseException as e:  # noqa: BLE001 - the helpers' `Abort` (derives from BaseException only)
+                if type(e).__name__ not in BASE_ONLY_EXCS:
+                    raise
+                rec["out"] = ["err", type(e).__name__]
     rec["stdout"] = buf.getvalue()
     rec["args"] = [canon(a) for a in args]
     rec["globals"] = canon_globals(mod)
@@ -1200,6 +1466,8 @@ def diff_call(plain, instr, argexprs):
             d = "return"
         if d == "return" and strip_logs(po) == strip_logs(io_):
             cause = "extra-user-calls"
+        elif d.startswith("raises:") and io_[1] in BASE_ONLY_EXCS:
+            cause = "base-exception"     # escapes the tracer's `except Exception` (known finding)
         else:
             cause = "one-shot-iterator" if one_shot else "unexplained"
         return d, cause, {"plain": po, "instrumented": io_}
@@ -1470,17 +1738,360 @@ STDLIB_QUICK = ["colorsys", "fnmatch", "bisect", "keyword"]
 
 
 # =================================================================================================
+# kind "pred": the predicate callbacks of the branch tracer on operands with programmable protocols
+# =================================================================================================
+PY_COMPARE = {
+    "EQ": lambda a, b: a == b, "NE": lambda a, b: a != b, "LT": lambda a, b: a < b, "LE": lambda a, b: a <= b,
+    "GT": lambda a, b: a > b, "GE": lambda a, b: a >= b, "IN": lambda a, b: a in b,
+    "NOT_IN": lambda a, b: a not in b, "IS": lambda a, b: a is b, "IS_NOT": lambda a, b: a is not b,
+}
+CMP_DUNDERS = {"lt": "__lt__", "le": "__le__", "gt": "__gt__", "ge": "__ge__", "eq": "__eq__", "ne": "__ne__"}
+PLAIN_OPERANDS = ["0", "1", "2", "-1", "2**70", "10**400", "1.5", "0.0", "float('nan')", "float('inf')", "'a'", "'b'",
+                  "''", "b'a'", "None", "(1, 2)", "True", "1+2j", "2.0**53", "2**53+1"]
+PLAIN_CONTAINERS = ["[1, 2, 3]", "(1, 2)", "{1, 2}", "{1: 2}", "'abc'", "b'abc'", "range(3)", "[]", "None", "5",
+                    "[float('nan')]", "{}"]
+
+
+class PredAbort(BaseException):
+    """an exception that derives from BaseException only"""
+
+
+class PredErr(Exception):
+    """a custom exception"""
+
+
+def _pred_exc(name):
+    import builtins
+    return {"PredAbort": PredAbort, "PredErr": PredErr}.get(name) or getattr(builtins, name)
+
+
+class _PredNoBool:
+    def __init__(self, exc):
+        self._exc = exc
+
+    def __bool__(self):
+        raise _pred_exc(self._exc)("no truth value")
+
+
+def _behaviour(kind: str, natural):
+    """A dunder from its description: "cmp" (natural result), "T", "F", "NI", "raise:<Exc>", "nobool:<Exc>",
+    "n:<int>" (returns that int), "items" (iterates [v])."""
+    if kind == "cmp":
+        return natural
+    if kind == "T":
+        return lambda self, *a: True
+    if kind == "F":
+        return lambda self, *a: False
+    if kind == "NI":
+        return lambda self, *a: NotImplemented
+    if kind.startswith("raise:"):
+        def raiser(self, *a, _n=kind[6:]):
+            raise _pred_exc(_n)("raised by the operand")
+        return raiser
+    if kind.startswith("nobool:"):
+        return lambda self, *a, _n=kind[7:]: _PredNoBool(_n)
+    if kind.startswith("n:"):
+        return lambda self, *a, _n=int(kind[2:]): _n
+    if kind == "items":
+        return lambda self: iter([self.v])
+    raise ValueError(kind)
+
+
+def build_operand(spec):
+    """{"plain": expr} or {"v": int, "ops": {dunder-short-name: behaviour}} -> a fresh stateless object"""
+    import operator
+    if spec is None:
+        return None
+    if "plain" in spec:
+        return eval(spec["plain"], {})  # noqa: S307 - harness-generated literal
+    nat = {"lt": operator.lt, "le": operator.le, "gt": operator.gt, "ge": operator.ge, "eq": operator.eq,
+           "ne": operator.ne}
+    ns = {}
+    for short, kind in spec["ops"].items():
+        if short in CMP_DUNDERS:
+            def natural(self, o, _f=nat[short]):
+                ov = getattr(o, "v", o)
+                try:
+                    return _f(self.v, ov)
+                except TypeError:
+                    return NotImplemented
+            ns[CMP_DUNDERS[short]] = _behaviour(kind, natural)
+        elif short == "contains":
+            ns["__contains__"] = _behaviour(kind, lambda self, x: getattr(x, "v", x) == self.v)
+        elif short == "iter":
+            ns["__iter__"] = _behaviour(kind, None)
+        elif short == "len":
+            ns["__len__"] = _behaviour(kind, None)
+        elif short == "bool":
+            ns["__bool__"] = _behaviour(kind, lambda self: bool(self.v))
+        else:
+            raise ValueError(short)
+    if "__eq__" in ns:
+        ns["__hash__"] = lambda self: 5
+    ns["__repr__"] = lambda self: f"Operand(v={self.v!r}, ops={spec['ops']!r})"
+    obj = type("Operand", (), ns)()
+    obj.v = spec["v"]
+    return obj
+
+
+def exc_class(e: BaseException) -> str:
+    """the class of an exception as far as the tracer's `except` clauses tell (Model/Callbacks.lean `Exc`)"""
+    if isinstance(e, TypeError):
+        return "typeError"
+    if isinstance(e, ValueError):
+        return "valueError"
+    if isinstance(e, OverflowError):
+        return "overflowError"
+    if isinstance(e, AssertionError):
+        return "assertionError"
+    if isinstance(e, Exception):
+        return "other"
+    return "base"
+
+
+def f_class(x) -> str:
+    """a number as far as `> 0.0`, `== 0.0`, `>= 0.0` tell (Model/Callbacks.lean `F`)"""
+    import math
+    x = float(x) if not isinstance(x, float) else x
+    if math.isnan(x):
+        return "nan"
+    if math.isinf(x):
+        return "posInf" if x > 0 else "negInf"
+    return "zero" if x == 0 else ("pos" if x > 0 else "neg")
+
+
+def _outcome(thunk, conv):
+    """{"ok": conv(value)} | {"err": class, "type": name}; KeyboardInterrupt & co. are not observations"""
+    try:
+        return {"ok": conv(thunk())}
+    except (KeyboardInterrupt, SystemExit, GeneratorExit, MemoryError):
+        raise
+    except BaseException as e:  # noqa: BLE001 - the outcome is data
+        return {"err": exc_class(e), "type": type(e).__name__}
+
+
+def run_pred_case(case):
+    """The real callback of `ExecutionTracer` on fresh operands; the module's own operation on fresh
+    operands; and, evaluated in the callback's order on a third set of operands, the outcomes of the
+    comparison and of the distance estimate the callback consults."""
+    import threading
+    import pynguin.instrumentation.tracer as tr
+
+    def fresh():
+        return build_operand(case["a"]), build_operand(case.get("b"))
+
+    tracer = tr.ExecutionTracer()
+    tracer._current_thread_identifier = threading.current_thread().ident  # noqa: SLF001 - as the executor does
+    dummy = {"ok": "pos"}
+    if case["pk"] == "compare":
+        cmp_op = getattr(tr.PynguinCompare, case["op"])
+        compare, true_dist, false_dist = tr._COMPARISONS[cmp_op]  # noqa: SLF001
+        a, b = fresh()
+        plain = _outcome(lambda: bool(PY_COMPARE[case["op"]](a, b)), bool)
+        a, b = fresh()
+        primary = _outcome(lambda: bool(compare(a, b)), bool)
+        td, fd = dummy, dummy
+        if primary.get("ok") is True:
+            fd = _outcome(lambda: false_dist(a, b), f_class)
+        elif primary.get("ok") is False:
+            td = _outcome(lambda: true_dist(a, b), f_class)
+        a, b = fresh()
+        call = lambda: tracer.executed_compare_predicate(a, b, 0, cmp_op)  # noqa: E731
+    else:
+        a, _ = fresh()
+        plain = _outcome(lambda: bool(a), bool)
+        a, _ = fresh()
+        primary = _outcome(lambda: bool(a), bool)
+        td, fd = dummy, dummy
+        if primary.get("ok") is True:
+            fd = _outcome(lambda: tr._falsy_distance(a), f_class)  # noqa: SLF001
+        a, _ = fresh()
+        call = lambda: tracer.executed_bool_predicate(a, 0)  # noqa: E731
+
+    def recorded(_):
+        trace = tracer.get_trace()
+        return [f_class(trace.true_distances[0]), f_class(trace.false_distances[0])]
+
+    callback = _outcome(call, recorded)
+    enabled = not tracer.is_disabled()
+    return {"plain": plain, "primary": primary, "td": td, "fd": fd, "callback": callback, "enabled_after": enabled}
+
+
+# =================================================================================================
+# kind "prov": the seeding callbacks of DynamicConstantProvider on operands of adversarial classes
+# =================================================================================================
+PROV_LOG: list = []
+_LOGGED = ["__add__", "__radd__", "__mul__", "__rmul__", "__mod__", "__rmod__", "__len__", "__eq__", "__ne__",
+           "__lt__", "__le__", "__gt__", "__ge__", "__hash__", "__bool__", "__format__", "__str__", "__bytes__",
+           "__iter__", "__contains__", "__getitem__", "__int__", "__float__", "__index__", "__abs__", "__sub__",
+           "__rsub__", "__neg__", "__complex__", "isalnum", "islower", "isupper", "isdecimal", "isalpha", "isdigit",
+           "isidentifier", "isnumeric", "isprintable", "isspace", "istitle", "upper", "lower", "startswith",
+           "endswith", "encode", "decode", "casefold", "strip", "join", "format"]
+
+
+def _logging_namespace(base, raising=False):
+    ns = {}
+    for name in _LOGGED:
+        inherited = getattr(base, name, None)
+        if inherited is None and name not in ("__radd__", "__bool__", "__format__", "__str__", "startswith",
+                                              "isalnum", "islower"):
+            continue
+
+        def method(self, *a, _name=name, _inh=inherited):
+            PROV_LOG.append((id(self), _name))
+            if raising and _name not in ("__hash__", "__eq__"):
+                raise ArithmeticError("operator of a user class")
+            if _inh is None:
+                return NotImplemented if _name == "__radd__" else True
+            return _inh(self, *a)
+        ns[name] = method
+    return ns
+
+
+def _prov_classes():
+    """{class key: (factory(text) -> operand, model base, exact)}; built once"""
+    import enum
+    if hasattr(_prov_classes, "cache"):
+        return _prov_classes.cache
+    strsub = type("StrSub", (str,), _logging_namespace(str))
+    strsub_r = type("StrSubRaising", (str,), _logging_namespace(str, raising=True))
+    bytessub = type("BytesSub", (bytes,), _logging_namespace(bytes))
+    bytessub_r = type("BytesSubRaising", (bytes,), _logging_namespace(bytes, raising=True))
+    intsub = type("IntSub", (int,), _logging_namespace(int))
+    floatsub = type("FloatSub", (float,), _logging_namespace(float))
+    tuplesub = type("TupleSub", (tuple,), _logging_namespace(tuple))
+    other = type("Other", (), _logging_namespace(object))
+    other_r = type("OtherRaising", (), _logging_namespace(object, raising=True))
+    logged = _logging_namespace(str)
+
+    class StrE(enum.StrEnum):
+        A = "abc"
+        B = "a"
+        C = "Abc Def Ghi Jkl"
+        D = "12"
+        __add__ = logged["__add__"]
+        __radd__ = logged["__radd__"]
+        __format__ = logged["__format__"]
+        __len__ = logged["__len__"]
+        isalnum = logged["isalnum"]
+        upper = logged["upper"]
+        lower = logged["lower"]
+        islower = logged["islower"]
+
+    ilogged = _logging_namespace(int)
+
+    class IntE(enum.IntEnum):
+        ONE = 1
+        __add__ = ilogged["__add__"]
+        __hash__ = ilogged["__hash__"]
+        __eq__ = ilogged["__eq__"]
+
+    def strenum(text):
+        return {"abc": StrE.A, "a": StrE.B, "12": StrE.D}.get(text, StrE.C)
+
+    _prov_classes.cache = {
+        "str": (lambda t: "".join(t), "str", True),     # (join: a fresh exact str)
+        "bytes": (lambda t: t.encode(), "bytes", True),
+        "int": (lambda t: len(t) + 7, "int", True),
+        "float": (lambda t: 1.5, "float", True),
+        "complex": (lambda t: 1j, "complex", True),
+        "bool": (lambda t: True, "bool", True),
+        "tuple": (lambda t: (t, "a"), "tuple", True),
+        "bytestuple": (lambda t: (t.encode(),), "tuple", True),
+        "none": (lambda t: None, "none", True),
+        "strsub": (strsub, "str", False),
+        "strsub_raising": (strsub_r, "str", False),
+        "bytessub": (lambda t: bytessub(t.encode()), "bytes", False),
+        "bytessub_raising": (lambda t: bytessub_r(t.encode()), "bytes", False),
+        "intsub": (lambda t: intsub(len(t)), "int", False),
+        "floatsub": (lambda t: floatsub(2.5), "float", False),
+        "tuplesub": (lambda t: tuplesub((t,)), "tuple", False),
+        "strenum": (strenum, "str", False),
+        "intenum": (lambda t: IntE.ONE, "int", False),
+        "other": (lambda t: other(), "other", False),
+        "other_raising": (lambda t: other_r(), "other", False),
+    }
+    return _prov_classes.cache
+
+
+PROV_TEXTS = ["abc", "a", "", "ABC", "12", " ", "Abc Def", "a1", "x_y", "abcdefgh", "abcdefghi", "Abc Def Ghi Jkl",
+              "\t", "a b", "A1", "ab!"]
+PROV_STRING_FUNCS = ["isalnum", "islower", "isupper", "isdecimal", "isalpha", "isdigit", "isidentifier", "isnumeric",
+                     "isprintable", "isspace", "istitle"]
+PROV_TEXT_CLASSES = ["str", "bytes", "strsub", "strsub_raising", "bytessub", "bytessub_raising", "strenum"]
+PROV_MAXLEN = 8
+
+
+def prov_operand(spec):
+    """-> (object, model descriptor)"""
+    factory, base, exact = _prov_classes()[spec["cls"]]
+    obj = factory(spec["text"])
+    if base == "str":
+        n = str.__len__(obj)
+    elif base == "bytes":
+        n = bytes.__len__(obj)
+    else:
+        n = 0
+    return obj, {"base": base, "exact": exact, "len": n, "pred": False}
+
+
+def run_prov_case(case):
+    from pynguin.analyses.constants import ConstantPool, DynamicConstantProvider, EmptyConstantProvider
+    added = []
+
+    class RecordingPool(ConstantPool):
+        def add_constant(self, constant):
+            t = type(constant)
+            added.append([t.__name__, len(constant) if t in (str, bytes) else 0])
+            super().add_constant(constant)
+
+    prov = DynamicConstantProvider(RecordingPool(), EmptyConstantProvider(), probability=0,
+                                   max_constant_length=case["maxlen"])
+    v, dv = prov_operand(case["v"])
+    p, dp = prov_operand(case["p"])
+    name = case.get("name")
+    if case["entry"] == "strings" and dv["base"] == "str" and name in PROV_STRING_FUNCS:
+        dv["pred"] = bool(getattr(str, name)(v))      # the builtin method, not an override
+    tags = {id(v): 0, id(p): 1}
+    del PROV_LOG[:]
+    err = None
+    try:
+        if case["entry"] == "addValue":
+            prov.add_value(v)
+        elif case["entry"] == "strings":
+            prov.add_value_for_strings(v, name)
+        elif case["entry"] == "startswith":
+            prov.add_value_for_startswith(v, p)
+        elif case["entry"] == "endswith":
+            prov.add_value_for_endswith(v, p)
+        else:
+            raise ValueError(case["entry"])
+    except ValueError:
+        raise
+    except Exception as e:  # noqa: BLE001 - the callback raising is the observation
+        err = type(e).__name__
+    user = [[tags.get(i, 2), n] for i, n in PROV_LOG]
+    del PROV_LOG[:]
+    return {"user": user, "pool": added, "err": err, "v": dv, "p": dp}
+
+
+# =================================================================================================
 # the check
 # =================================================================================================
 class C01(PropertyCheck):
     prop_id = "C01"
     prop_modules = ["PynguinModel.Props.C01"]
-    extra_modules = ["PynguinModel.Model.StackMachine", "PynguinModel.Generated.C01Snippets"]
+    extra_modules = ["PynguinModel.Model.StackMachine", "PynguinModel.Model.Callbacks",
+                     "PynguinModel.Generated.C01Snippets"]
     driver = "Driver/C01.lean"
-    n_quick = 28
-    n_thorough = 200
-    n_search = 150
-    rule = ("case kinds: snippet (live generator output run by CPython vs the Lean stack machine), adv "
+    n_quick = 280
+    n_thorough = 2000
+    n_search = 600
+    rule = ("case kinds: pred (real ExecutionTracer predicate callback on operands with random partial comparison / "
+            "truth / membership protocols vs Model/Callbacks.lean; 45 %), prov (real DynamicConstantProvider entry "
+            "point on operands of plain / subclass / enum / unrelated classes with logging or raising operators vs "
+            "the model; 45 %), and 10 %: "
+            "snippet (live generator output run by CPython vs the Lean stack machine), adv "
             "(adversarial template module, ~14 calls), progen (random program, 3-5 functions x 4 inputs), stdlib "
             "(copied pure-Python stdlib module with fixed calls); every prog case runs under all 8 metric subsets "
             "with dynamic seeding; non-trivial = distinct (shape, depth, variant) / distinct (source, calls) whose "
@@ -1512,6 +2123,21 @@ class C01(PropertyCheck):
         self._placement: list[str] = []
         self._adv_cache: dict = {}
         self._cache: dict[str, dict] = {}
+
+    def run(self) -> int:
+        """The runner prints one KNOWN-FINDING line per reproduced known signature (11 for this property) and
+        the VIOLATION line last; consumers that read only the first few verdict lines (tools/seeded_eval.py keeps
+        six) would never see it.  Same lines, verdict first."""
+        buf = io.StringIO()
+        try:
+            with contextlib.redirect_stdout(buf):
+                rc = super().run()
+        finally:
+            lines = buf.getvalue().splitlines()
+            for line in sorted(lines, key=lambda l: not l.startswith("VIOLATION")):    # stable sort
+                print(line)
+            sys.stdout.flush()
+        return rc
 
     # -- translator -----------------------------------------------------------------------------
     def _canary(self):
@@ -1648,6 +2274,11 @@ class C01(PropertyCheck):
     def gen_case(self, rng):
         if getattr(self, "_crash", None) is not None:
             return {"kind": "crash"}
+        r0 = rng.random()
+        if r0 < 0.45:
+            return self._gen_pred(rng)
+        if r0 < 0.90:
+            return self._gen_prov(rng)
         r = rng.random()
         if r < 0.30:
             sh = rng.choice(self._shapes())
@@ -1666,7 +2297,7 @@ class C01(PropertyCheck):
             for _ in range(14):
                 fn = rng.choice(fns)
                 group, pools = ADV_FUNCS[fn]
-                calls.append([fn, [rng.choice(p) for p in pools]])
+                calls.append([fn, [expand_pool_entry(rng, rng.choice(p)) for p in pools]])
             return {"kind": "prog", "family": "adv", "src": "ADV:" + bucket, "calls": calls, "subsets": names}
         if r < 0.95:
             import progen
@@ -1687,13 +2318,104 @@ class C01(PropertyCheck):
         return {"kind": "prog", "family": "stdlib", "src": "STDLIB:" + name, "calls": STDLIB_CALLS[name],
                 "subsets": sorted(rng.sample(names, 2))}
 
+    @staticmethod
+    def _gen_exc(rng):
+        r = rng.random()
+        if r < 0.06:
+            return "PredAbort"
+        if r < 0.16:
+            return "PredErr"
+        return rng.choice(EXCS[:6] + [e for e in EXCS if e not in ("MyErr", "SubErr")])
+
+    def _gen_protocol(self, rng, shorts):
+        """a random partial protocol over the given dunders"""
+        ops = {}
+        for sh in shorts:
+            r = rng.random()
+            if r < 0.22:
+                continue                                   # not defined
+            if r < 0.55:
+                ops[sh] = "cmp"
+            elif r < 0.80:
+                ops[sh] = "raise:" + self._gen_exc(rng)
+            elif r < 0.88:
+                ops[sh] = "NI"
+            elif r < 0.94:
+                ops[sh] = "nobool:" + self._gen_exc(rng)
+            else:
+                ops[sh] = rng.choice(["T", "F"])
+        return ops
+
+    def _gen_pred(self, rng):
+        cmp_shorts = ["lt", "le", "gt", "ge", "eq", "ne"]
+
+        def operand():
+            if rng.random() < 0.3:
+                return {"plain": rng.choice(PLAIN_OPERANDS)}
+            return {"v": rng.choice([0, 1, 1, 2]), "ops": self._gen_protocol(rng, cmp_shorts)}
+
+        def container():
+            if rng.random() < 0.35:
+                return {"plain": rng.choice(PLAIN_CONTAINERS)}
+            ops = {}
+            for sh, kinds in (("contains", ["cmp", "cmp", "T", "F", "raise", None]),
+                              ("iter", ["items", "raise", "raise", None]),
+                              ("len", ["n:0", "n:2", "raise", None]), ("bool", ["T", "F", "raise", None, None])):
+                k = rng.choice(kinds)
+                if k is not None:
+                    ops[sh] = "raise:" + self._gen_exc(rng) if k == "raise" else k
+            return {"v": rng.choice([1, 2]), "ops": ops}
+
+        r = rng.random()
+        if r < 0.2:
+            return {"kind": "pred", "pk": "bool", "a": container() if rng.random() < 0.8 else operand()}
+        if r < 0.4:
+            return {"kind": "pred", "pk": "compare", "op": rng.choice(["IN", "NOT_IN"]), "a": operand(),
+                    "b": container()}
+        op = rng.choice(["EQ", "NE", "LT", "LE", "GT", "GE", "LT", "LE", "GT", "GE", "EQ", "NE", "IS", "IS_NOT"])
+        a, b = operand(), operand()
+        if "ops" in a and op.lower() in CMP_DUNDERS and rng.random() < 0.7:
+            # the operator the module itself uses works; what the converse / reflected ones do stays random
+            a["ops"][op.lower()] = rng.choice(["cmp", "cmp", "T", "F"])
+            conv = {"lt": "le", "le": "lt", "gt": "ge", "ge": "gt", "eq": "ne", "ne": "eq"}[op.lower()]
+            if rng.random() < 0.5:
+                kind = rng.choice(["raise:", "raise:", "nobool:"]) + self._gen_exc(rng)
+                a["ops"][conv] = kind
+                if "ops" in b:
+                    b["ops"][conv] = kind
+        return {"kind": "pred", "pk": "compare", "op": op, "a": a, "b": b}
+
+    def _gen_prov(self, rng):
+        classes = sorted(_prov_classes())
+
+        def operand(text_bias):
+            cls = rng.choice(PROV_TEXT_CLASSES) if rng.random() < text_bias else rng.choice(classes)
+            return {"cls": cls, "text": rng.choice(PROV_TEXTS)}
+
+        entry = rng.choice(["addValue", "strings", "strings", "startswith", "startswith", "endswith", "endswith"])
+        case = {"kind": "prov", "entry": entry, "name": None, "maxlen": rng.choice([PROV_MAXLEN, PROV_MAXLEN, 3, 50]),
+                "v": operand(0.75 if entry != "addValue" else 0.4), "p": {"cls": "none", "text": ""}}
+        if entry == "strings":
+            case["name"] = rng.choice(PROV_STRING_FUNCS + ["startswith", "upper"]) if rng.random() < 0.9 \
+                else rng.choice(PROV_STRING_FUNCS)
+        if entry in ("startswith", "endswith"):
+            case["p"] = operand(0.75)
+            if rng.random() < 0.5:       # the pair the guard is about: same family, possibly different exactness
+                fam = {"str": ["str", "strsub", "strsub_raising", "strenum"],
+                       "bytes": ["bytes", "bytessub", "bytessub_raising"]}
+                for members in fam.values():
+                    if case["v"]["cls"] in members:
+                        case["p"]["cls"] = rng.choice(members)
+        return case
+
     # -- implementation adapter -----------------------------------------------------------------
     def impl(self, case):
         if getattr(self, "_crash", None) is not None:
             return {"crash": self._crash["what"]}     # nothing is executed in-process any more
         key = vcommon.jdump(case)
         if key not in self._cache:
-            self._cache[key] = self._impl_snippet(case) if case["kind"] == "snippet" else self._impl_prog(case)
+            self._cache[key] = {"snippet": self._impl_snippet, "prog": self._impl_prog, "pred": run_pred_case,
+                                "prov": run_prov_case}[case["kind"]](case)
             if len(self._cache) > 4000:
                 self._cache.pop(next(iter(self._cache)))
         return self._cache[key]
@@ -1794,7 +2516,19 @@ class C01(PropertyCheck):
 
     # -- model side -----------------------------------------------------------------------------
     def model_line(self, case):
-        if case["kind"] != "snippet" or getattr(self, "_crash", None) is not None:
+        if getattr(self, "_crash", None) is not None:
+            return None
+        if case["kind"] == "pred":
+            io = self.impl(case)
+            strip = lambda o: {k: v for k, v in o.items() if k != "type"}  # noqa: E731
+            return vcommon.jdump({"pred": {"kind": case["pk"], "primary": strip(io["primary"]),
+                                           "td": strip(io["td"]), "fd": strip(io["fd"])}})
+        if case["kind"] == "prov":
+            io = self.impl(case)
+            entry = case["entry"]
+            return vcommon.jdump({"prov": {"entry": entry, "name": case["name"] if case["name"] is not None else "",
+                                           "maxLen": case["maxlen"], "v": io["v"], "p": io["p"]}})
+        if case["kind"] != "snippet":
             return None
         sh = case["shape"]
         instrs, orig = live_instructions(sh, "SELF")
@@ -1811,10 +2545,17 @@ class C01(PropertyCheck):
                                       "userRaises": variant == "raises"}})
 
     def compare(self, case, io, mo):
-        if case["kind"] != "snippet":
+        if case["kind"] == "prog":
             return True
         if "bad-op" in mo or "unparsable" in mo:
             return False
+        if case["kind"] == "pred":
+            cb = io["callback"]
+            if "err" in cb:
+                return mo.get("err") == cb["err"] and io["enabled_after"]
+            return mo.get("ok") == cb["ok"] and io["enabled_after"]
+        if case["kind"] == "prov":
+            return io["err"] is None and mo["user"] == io["user"] and mo["pool"] == io["pool"]
         sh = case["shape"]
         instrs, orig = live_instructions(sh, "SELF")
         _, _, _, info = to_ops(instrs, orig, "SELF", True)
@@ -1851,6 +2592,39 @@ class C01(PropertyCheck):
                 self._crash_reported = True
                 fs.append(Failure({"class": "interpreter-crash", "stage": "canary"}, io["crash"],
                                   case=self._crash["case"]))
+            return fs
+        if case["kind"] == "pred":
+            # the property at callback level: the callback raises only what the module's own operation (the
+            # comparison / truth test it is about to evaluate on these operands) raises
+            cb, plain = io["callback"], io["plain"]
+            what = (f"{case['op']} predicate on ({case['a']}, {case.get('b')})" if case["pk"] == "compare"
+                    else f"truth-test predicate on {case['a']}")
+            if "err" in cb and "err" not in plain:
+                cls = "callback-raises-base-exception" if cb["err"] == "base" else "callback-raises"
+                sig = {"kind": "pred", "class": cls}
+                if cls == "callback-raises":
+                    sig["predicate"] = case["pk"] if case["pk"] == "bool" else case["op"]
+                fs.append(Failure(sig, f"tracer callback for the {what} raises {cb['type']} although the module's own "
+                                       f"operation returns {plain['ok']}", detail=io))
+            elif "err" in cb and cb["type"] != plain["type"]:
+                fs.append(Failure({"kind": "pred", "class": "callback-raises-other-type"},
+                                  f"tracer callback for the {what} raises {cb['type']}, the module's own operation "
+                                  f"raises {plain['type']}", detail=io))
+            if not io["enabled_after"]:
+                fs.append(Failure({"kind": "pred", "class": "tracer-left-disabled"},
+                                  f"tracer stays disabled after the callback for the {what}", detail=io))
+            return fs
+        if case["kind"] == "prov":
+            # the seeding callbacks may only observe: no operator / method of an operand's class, nothing raised
+            if io["user"]:
+                fs.append(Failure({"kind": "prov", "entry": case["entry"], "class": "user-operator-called"},
+                                  f"DynamicConstantProvider entry {case['entry']}({case['v']}, {case['p']}, "
+                                  f"name={case['name']}) calls operators of the module's classes: {io['user']}",
+                                  detail=io))
+            if io["err"] is not None:
+                fs.append(Failure({"kind": "prov", "entry": case["entry"], "class": "raises"},
+                                  f"DynamicConstantProvider entry {case['entry']}({case['v']}, {case['p']}, "
+                                  f"name={case['name']}) raises {io['err']}", detail=io))
             return fs
         if case["kind"] == "snippet":
             # the property at snippet level: the inserted code leaves the stack as the original
@@ -1907,7 +2681,24 @@ class C01(PropertyCheck):
     def classify(self, case, io):
         if "crash" in io:
             return None
-        self.count("kind:" + (case["kind"] if case["kind"] == "snippet" else case["family"]))
+        self.count("kind:" + (case["family"] if case["kind"] == "prog" else case["kind"]))
+        if case["kind"] == "pred":
+            est = io["fd"] if io["primary"].get("ok") is True else io["td"]
+            key = [case["pk"], case.get("op"), io["primary"].get("ok", io["primary"].get("type")),
+                   est.get("ok", est.get("type"))]
+            self.count("pred-op:" + (case.get("op") or "bool"))
+            self.count("pred-primary:" + str(io["primary"].get("ok", "raises")))
+            if "err" in est:
+                self.count("pred-estimate-raises:" + est["err"])
+            if "err" in io["primary"]:
+                return None
+            return vcommon.jdump(key + [case["a"], case.get("b")])
+        if case["kind"] == "prov":
+            self.count("prov-entry:" + case["entry"])
+            self.count("prov-v:" + case["v"]["cls"])
+            if io["pool"]:
+                self.count("prov-pool-adds", len(io["pool"]))
+            return vcommon.jdump(case)
         if case["kind"] == "snippet":
             self.count("snippet-variant:" + case["variant"])
             self.count("snippet-action:" + case["shape"]["action"])
@@ -1942,7 +2733,16 @@ class C01(PropertyCheck):
         ["in_", ["Lg(1)", "[Lg(1),Lg(2)]"]], ["boolops", ["1", "Lg(1)", "0"]], ["cmp_eq", ["Lg(1)", "Lg(1)"]], ["truth", ["Lg(1)"]],
         ["subscr_try", ["Lg(1)", "1"]], ["cmp_lt", ["OnlyLt(1)", "OnlyLt(2)"]],
         ["cmp_eq", ["float('nan')", "1.0"]], ["cmp_le", ["2**53+1", "2.0**53"]], ["cmp_lt", ["1", "10**400"]],
+        # BaseException-only classes escape `except Exception` in _missed_branch_distance (known finding)
+        ["cmp_lt", ["PC(1,'Abort')", "PC(2,'Abort')"]], ["truth", ["TB(1,'Abort')"]], ["notin", ["1", "CI(2,'Abort')"]],
+        # ... every `Exception` of a converse / reflected operator is swallowed
+        ["cmp_lt", ["PC(1,'NotImplementedError')", "PC(2,'NotImplementedError')"]], ["cmp_gt", ["PC(2,'KeyError')", "1"]],
+        ["cmp_eq", ["PE(1,'ZeroDivisionError')", "PE(1,'ZeroDivisionError')"]], ["truth", ["TB(1,'AttributeError')"]],
+        ["notin", ["1", "CI(2,'MyErr')"]],
     ]
+    WITNESS_PRED = {"kind": "pred", "pk": "compare", "op": "LT",
+                    "a": {"v": 1, "ops": {"lt": "cmp", "le": "raise:PredAbort", "ge": "raise:PredAbort"}},
+                    "b": {"v": 2, "ops": {"lt": "cmp", "le": "raise:PredAbort", "ge": "raise:PredAbort"}}}
 
     def witnesses(self):
         fs = []
@@ -1955,6 +2755,8 @@ class C01(PropertyCheck):
             io = self.impl(case)
             self.evaluations += 1
             fs += self.oracle(case, io)
+        self.evaluations += 1
+        fs += self.oracle(self.WITNESS_PRED, self.impl(self.WITNESS_PRED))
         self._checked_comprehensions_crash()
         rc = self._crash_rc
         if rc not in (0,):
